@@ -36,6 +36,8 @@ type Global struct {
 	repoDir   string
 	fnIDs     map[*ssa.Function]int
 	knownOpen map[string]bool // obligation names (without @ordinal) listed as open known findings
+	eff        *effectAnalysis
+	namedTypes []types.Type
 }
 
 var modulePatterns = []string{".", "./internal/quicvarint", "./internal/helper", "./dicttls"}
